@@ -303,6 +303,10 @@ def ref(p, args, ch, pre=()):
         return ref(p[1], list(p[2]) + list(args), ch, pre)
     if op in ("masked_iterate", "masked_iterate_final"):
         state, flags = args
+        if op == "masked_iterate" and any(f == 0 for f in flags[1:]):
+            # masked_iterate documents "a Masked list of results": what the plain array holds at and
+            # after a masked-off step is not specified
+            raise Unspecified("masked_iterate values after a masked-off step")
         sites, acc = [], [state]
         for i, f in enumerate(flags[1:]):
             if f != 0:
